@@ -39,10 +39,32 @@ func (c *mapCtx) AddResponseHeader(n, v string) frugal.FContext {
 	c.resp[n] = v
 	return c
 }
-func (c *mapCtx) ResponseHeader(n string) (string, bool) { v, ok := c.resp[n]; return v, ok }
-func (c *mapCtx) ResponseHeaders() map[string]string      { return cp(c.resp) }
+func (c *mapCtx) ResponseHeader(n string) (string, bool)   { v, ok := c.resp[n]; return v, ok }
+func (c *mapCtx) ResponseHeaders() map[string]string       { return cp(c.resp) }
 func (c *mapCtx) SetTimeout(time.Duration) frugal.FContext { return c }
 func (c *mapCtx) Timeout() time.Duration                   { return time.Second }
+
+// chunkReader hands out at most k bytes per Read call.
+type chunkReader struct {
+	b []byte
+	k int
+}
+
+func (c *chunkReader) Read(p []byte) (int, error) {
+	if len(c.b) == 0 {
+		return 0, io.EOF
+	}
+	n := c.k
+	if n > len(p) {
+		n = len(p)
+	}
+	if n > len(c.b) {
+		n = len(c.b)
+	}
+	copy(p, c.b[:n])
+	c.b = c.b[n:]
+	return n, nil
+}
 
 func cp(m map[string]string) map[string]string {
 	o := make(map[string]string, len(m))
@@ -162,6 +184,12 @@ func makeRecord(id int, m map[string]string, payload []byte, rng *rand.Rand) rec
 		t := &thrift.TMemoryBuffer{Buffer: bytes.NewBuffer(append([]byte(nil), msg...))}
 		h, err := frugal.VerifReadHeader(t)
 		rec.Readers["stream-tmemorybuffer"] = reader{pairsOf(h), bints(t.Bytes()), errStr(err)}
+	}
+	// stream readers that deliver the bytes in pieces (a socket, a bufio boundary): k bytes per Read
+	for _, k := range []int{1, 7, 64} {
+		r := &chunkReader{b: append([]byte(nil), msg...), k: k}
+		h, err := frugal.VerifReadHeader(r)
+		rec.Readers[fmt.Sprintf("stream-chunked-%d", k)] = reader{pairsOf(h), bints(r.b), errStr(err)}
 	}
 	// ReadResponseHeader merges every header but _opid into the context
 	if _, has := m["_opid"]; !has {
